@@ -6,7 +6,7 @@
  *   q largest <set> <max>                 hwloc_get_largest_objs_inside_cpuset
  *   q first_largest <set>                 hwloc_get_first_largest_obj_inside_cpuset
  *   q inside <depth> <set>                hwloc_get_next_obj_inside_cpuset_by_depth from NULL until NULL
- *   q nb_inside <depth> <set>             hwloc_get_nbobjs_inside_cpuset_by_depth + get_obj_inside(idx) for every idx + index_inside
+ *   q nb_inside <depth> <set>             hwloc_get_nbobjs_inside_cpuset_by_depth + get_obj_inside(idx) for every idx + index_inside, then index_inside of every object of the level
  *   q covering_iter <depth> <set>         hwloc_get_next_obj_covering_cpuset_by_depth from NULL until NULL
  *   q ancestor <id> <id>                  hwloc_get_common_ancestor_obj
  *   q in_subtree <id> <id>                hwloc_obj_is_in_subtree
@@ -25,6 +25,7 @@
  * sets as raw words (hwv_pset), never through the helpers under test. */
 #include "hwv_dump.h"
 #include "hwv_load.h"
+#include <hwloc/export.h>
 #include <unistd.h>
 #include <limits.h>
 #include <sys/wait.h>
@@ -143,6 +144,13 @@ static void query(char *q)
       pid_(o);
       if (o) printf(":%d", hwloc_get_obj_index_inside_cpuset(T, s, o));
     }
+    /* then hwloc_get_obj_index_inside_cpuset for every object of the level, CPU-less ones included */
+    printf(" | ");
+    for (i = 0, o = hwloc_get_obj_by_depth(T, depth, 0); o && i <= nobj; o = o->next_cousin, i++) {
+      if (i) putchar(',');
+      pid_(o); printf(":%d", o->cpuset ? hwloc_get_obj_index_inside_cpuset(T, s, o) : -2);
+    }
+    if (!i) putchar('-');
     putchar('\n');
     hwloc_bitmap_free(s);
   } else if (!strcmp(kind, "ancestor")) {
@@ -263,6 +271,22 @@ int main(void)
       rc = hwloc_topology_restrict(T, s, fl);
       printf("restrict rc=%d errno=%s\n", rc, rc < 0 ? hwv_errno_class(errno) : "0");
       hwloc_bitmap_free(s);
+    } else if (!strncmp(line, "disallow_reload ", 16)) {
+      /* topology loaded with INCLUDE_DISALLOWED: allow only <set>, export to XML, reload WITHOUT the flag:
+       * the disallowed PUs leave the cpusets but stay in the complete_cpusets (children keep their order) */
+      hwloc_bitmap_t s; char *buf = NULL; int len = 0, rc; hwloc_topology_t t2 = NULL;
+      if (!loaded || !(s = hwv_parse_set(line + 16))) { printf("disallow_reload bad\n"); continue; }
+      errno = 0;
+      rc = hwloc_topology_allow(T, s, NULL, HWLOC_ALLOW_FLAG_CUSTOM);
+      hwloc_bitmap_free(s);
+      if (rc < 0 || hwloc_topology_export_xmlbuffer(T, &buf, &len, 0) < 0) { printf("disallow_reload rc=-1 errno=%s\n", hwv_errno_class(errno)); continue; }
+      hwloc_topology_init(&t2);
+      hwloc_topology_set_all_types_filter(t2, HWLOC_TYPE_FILTER_KEEP_ALL);
+      rc = hwloc_topology_set_xmlbuffer(t2, buf, len);
+      if (rc == 0) rc = hwloc_topology_load(t2);
+      if (rc == 0) { hwloc_topology_destroy(T); T = t2; } else hwloc_topology_destroy(t2);
+      hwloc_free_xmlbuffer(T, buf);
+      printf("disallow_reload rc=%d\n", rc);
     } else if (!strcmp(line, "dump")) {
       if (!loaded) { printf("nodump\n"); continue; }
       hwv_dump_topology(stdout, T, 0);
